@@ -364,14 +364,10 @@ def r3b_dense_indices(F, res, rid="C16-R3"):
                     lookups.append("present" if v == 1 else "absent")
             elif e[0] == "call" and e[1] == GB + "get_nonterm_idx":
                 seen = True
-                if lookups and lookups[-1] == "present":
+                # drawn only after the name was looked up and found absent (an unconditional or "present" allocation burns an
+                # index per repeated rule name)
+                if not lookups or lookups[-1] != "absent":
                     bad = "%s:%s" % (f.file, e[3])
-                elif not lookups:
-                    # drawn before the name was looked up at all: every rule, known or not, takes an index
-                    ups = [x for x in p.events[p.events.index(e):] if x[0] == "cond" and x[1][0] == "discr" and mir.has_call(x[1][1], "::get")
-                           and mir.has_field(x[1][1], "nonterminals", "GrammarBuilder")]
-                    if ups:
-                        bad = "%s:%s" % (f.file, e[3])
     if not seen:
         res.anchor_lost(rid, "allocation of the nonterminal index in the rule loop not recognised", f.loc())
     elif bad:
